@@ -385,7 +385,7 @@ def slice_c05():
     d, _ = straight_line('jumps.py', 'Jumps.jump_diffusivity', 'jumpDiffusivity', ['sum_sq', 'angstrom', 'dimensions', 'n_floating', 'total_time'],
                          opaque={'np.sum(pdist ** 2 * self.matrix())': 'sum_sq', 'self.trajectory.total_time': 'total_time', 'self.n_floating': 'n_floating'},
                          doc='jumps.py jump_diffusivity: `sum_sq` = Σ_ij (site distance)² × jump count')
-    return HEADER + d + '\n' + slice_c05b() + '\nend G.Gen\n'
+    return HEADER + d + '\n' + slice_c05b() + '\n' + slice_c05c() + '\nend G.Gen\n'
 
 
 def assigned_text(fn, name):
@@ -674,7 +674,76 @@ def slice_c18():
     return HEADER + d + '\n' + f + '\nend G.Gen\n'
 
 
-SLICES = {'FormulasC01': slice_c01, 'FormulasC02': slice_c02, 'FormulasC05': slice_c05, 'FormulasC08': slice_c08,
+def slice_c06():
+    tree = ast.parse((REPO_SRC / 'trajectory.py').read_text())
+    fn = find_function(tree, 'Trajectory.mean_squared_displacement')
+    at = lambda name: assigned_text(fn, name)  # noqa: E731
+    out = flag('trackIsUnwrappedCartesian', at('r') == ['self.cumulative_displacements', 'lattice.get_cartesian_coords(r)'] and at('lattice') == ['self.get_lattice()']
+               and at('pos') == ['np.transpose(r, (1, 0, 2))'] and at('n_times') == ['pos.shape[1]'],
+               'the track of every atom is the running sum of its minimum-image displacements, converted with `lattice.get_cartesian_coords` (row vector x lattice matrix)')
+    out += '\n' + flag('autocorrelationZeroPaddedToTwiceFrames',
+                       at('fft_result') == ['np.fft.ifft(np.abs(np.fft.fft(pos, n=2 * n_times, axis=-2)) ** 2, axis=-2)', 'fft_result[:, :n_times, :].real'],
+                       'S2 comes from |FFT|^2 of the track zero-padded to exactly 2 x frames (linear, not circular, autocorrelation), first `frames` lags, real part')
+    out += '\n' + flag('windowCountsAreFramesMinusLag', at('S2') == ['np.sum(fft_result, axis=-1) / (n_times - np.arange(n_times)[None, :])']
+                       and at('S1') == ['(double_sum_D - cumsum_D)[:, :-1] / (n_times - np.arange(n_times)[None, :])'],
+                       'both terms are divided by the number of time origins, frames - lag')
+    out += '\n' + flag('squaredLengthRecursion', at('D') == ['np.square(pos).sum(axis=-1)', 'np.append(D, np.zeros((pos.shape[0], 1)), axis=-1)']
+                       and at('double_sum_D') == ['2 * np.sum(D, axis=-1)[:, None]']
+                       and at('cumsum_D') == ['np.cumsum(np.insert(D[:, 0:-1], 0, 0, axis=-1) + np.flip(D, axis=-1), axis=-1)'],
+                       'S1 is computed as 2 x sum(D) - cumsum(insert(D, 0, 0)[:-1] + flip(D)) with D the squared lengths padded by one zero (GModel.Traj.s1)')
+    sl = Slice(['S1', 'S2'], inputs={'S1', 'S2'})
+    msd = next((n.value for n in fn.body if isinstance(n, ast.Assign) and ast.unparse(n.targets[0]) == 'msd'), None)
+    if msd is None:
+        raise Untranslatable('msd not assigned')
+    out += ('\n/-- trajectory.py mean_squared_displacement: how the two terms are combined -/\n'
+            f'def msdCombine (S1 S2 : Rat) : Rat :=\n  {sl.arith(msd, {})}\n')
+    ret = fn.body[-1]
+    out += '\n' + flag('returnsMsd', isinstance(ret, ast.Return) and ast.unparse(ret.value) == 'msd', 'the combined value is what is returned')
+    # distances_from_base_position feeds the tracer diffusivity
+    return HEADER + out + '\nend G.Gen\n'
+
+
+def slice_c05c():
+    tree = ast.parse((REPO_SRC / 'jumps.py').read_text())
+    fn = find_function(tree, 'Jumps.to_graph')
+    loop = next((n for n in fn.body if isinstance(n, ast.For) and ast.unparse(n.iter) == 'self._counter().items()'), None)
+    if loop is None:
+        raise Untranslatable('to_graph: `for (start, stop), n_jumps in self._counter().items()` not found')
+    last = loop.body[-1]
+    if not (isinstance(last, ast.If) and not last.orelse and len(last.body) == 1 and isinstance(last.body[0], ast.Expr)
+            and isinstance(last.body[0].value, ast.Call) and ast.unparse(last.body[0].value.func) == 'G.add_edge'):
+        raise Untranslatable('to_graph: loop does not end with `if <limits>: G.add_edge(...)`')
+    params = ['n_jumps', 'occupancy', 'total_time', 'log_ratio', 'kBT', 'elementary_charge', 'min_e_act', 'max_e_act']
+    sl = Slice(params, {'atom_percentage[start]': 'occupancy', 'self.trajectory.total_time': 'total_time', 'np.log(eff_rate / attempt_freq)': 'log_ratio'},
+               inputs={'n_jumps', 'kBT', 'min_e_act', 'max_e_act'})
+    env, st = {'n_jumps': 'n_jumps', 'kBT': 'kBT', 'min_e_act': 'min_e_act', 'max_e_act': 'max_e_act'}, {'raises': [], 'stores': {}, 'result_node': None}
+    sl.block(loop.body[:-1], env, [], st)
+    keep = sl.arith(last.test, env)
+    kws = {k.arg: k.value for k in last.body[0].value.keywords}
+    if set(kws) != {'e_act'}:
+        raise Untranslatable(f'G.add_edge keywords {sorted(kws)}')
+    stored = sl.arith(kws['e_act'], env)
+    rate = env.get('eff_rate')
+    if rate is None or rate is OPAQUE:
+        raise Untranslatable('eff_rate is not arithmetic')
+    sig = ' '.join(params)
+    out = ('/-- jumps.py Jumps.to_graph: effective rate of a site pair (`occupancy` = mean number of atoms at the origin site) -/\n'
+           f'def effRate ({sig} : Rat) : Rat :=\n  {rate}\n'
+           '\n/-- … the activation energy stored on the edge (`log_ratio` = np.log(eff_rate / attempt_freq)) -/\n'
+           f'def edgeEnergy ({sig} : Rat) : Rat :=\n  {stored}\n'
+           '\n/-- … and whether the edge is kept for the limits `min_e_act`, `max_e_act` -/\n'
+           f'def edgeKept ({sig} : Rat) : Bool :=\n  decide {keep}\n\n')
+    lim = [ast.unparse(n) for n in fn.body if isinstance(n, ast.Assign) and ast.unparse(n.targets[0]) in ('min_e_act', 'max_e_act')]
+    out += flag('limitsDefaultToUnbounded', lim == ["min_e_act = min_e_act if min_e_act else float('-inf')", "max_e_act = max_e_act if max_e_act else float('inf')"],
+                'a limit that is not given (None) means no limit')
+    out += '\n' + flag('graphInputsFromThisAnalysis', assigned_text(fn, 'atom_percentage') == ['[site.species.num_atoms for site in self.transitions.occupancy()]']
+                       and assigned_text(fn, 'temperature') == ["self.trajectory.metadata['temperature']"] and assigned_text(fn, 'kBT') == ['Boltzmann * temperature']
+                       and any(ast.unparse(n) == 'attempt_freq, _ = self.trajectory.metrics().attempt_frequency()' for n in fn.body),
+                       'occupancies, temperature and attempt frequency are those of this Jumps object\'s own transitions / diffusing trajectory, computed on request')
+    return out
+
+
+SLICES = {'FormulasC01': slice_c01, 'FormulasC02': slice_c02, 'FormulasC05': slice_c05, 'FormulasC06': slice_c06, 'FormulasC08': slice_c08,
           'FormulasC09': slice_c09, 'FormulasC10': slice_c10, 'FormulasC11': slice_c11, 'FormulasC12': slice_c12,
           'FormulasC14': slice_c14, 'FormulasC17': slice_c17, 'FormulasC18': slice_c18, 'FormulasC19': slice_c19}
 
